@@ -6,6 +6,7 @@ package main
 import (
 	"bytes"
 	"encoding/json"
+	"fmt"
 
 	"verifharness/pkg/vh"
 )
@@ -21,6 +22,121 @@ type Case struct {
 	Typing   *Typing     `json:"typing,omitempty"` // per-leaf Go types (typed.go); compared with the generic model only
 	Fuzz     *FuzzCase   `json:"fuzz,omitempty"`   // a (previous value, delta) pair for the two merges (fuzz.go); Old/New unused
 	Probe    string      `json:"probe,omitempty"`  // "bytes-key": objects keyed by a []byte value (not expressible in JSON)
+	Alias    *Alias      `json:"alias,omitempty"`  // the new value shares list storage with the old one (built from Old at run time; New is its JSON view)
+}
+
+// Alias describes a new value that shares list storage with the old one, as a resolver that re-slices a cached
+// list or appends to it in place hands them to Diff: the list at Path of the old value is rebuilt over a backing
+// array that has Extra behind it, and the new value holds, at the same path, another view of that array:
+// "prefix" = old[:K], "extend" = old[:len(old)+len(Extra)], "same" = the same slice.  Everything else is equal
+// (maps and lists along the path are distinct objects, siblings are shared).
+type Alias struct {
+	Path  []string      `json:"path"`
+	Op    string        `json:"op"`
+	K     int           `json:"k"`
+	Extra []interface{} `json:"extra"`
+}
+
+func applyAlias(old interface{}, a Alias) (interface{}, interface{}) {
+	if len(a.Path) == 0 {
+		lst, ok := old.([]interface{})
+		if !ok {
+			return old, old
+		}
+		back := make([]interface{}, len(lst)+len(a.Extra))
+		copy(back, lst)
+		copy(back[len(lst):], a.Extra)
+		o := back[:len(lst):len(lst)]
+		if a.Op == "extend" {
+			o = back[:len(lst)]
+		}
+		switch a.Op {
+		case "prefix":
+			k := a.K
+			if k > len(lst) {
+				k = len(lst)
+			}
+			return o, back[:k]
+		case "extend":
+			return o, back[:len(back)]
+		}
+		return o, o
+	}
+	rest := Alias{Path: a.Path[1:], Op: a.Op, K: a.K, Extra: a.Extra}
+	switch x := old.(type) {
+	case map[string]interface{}:
+		oo, nn := map[string]interface{}{}, map[string]interface{}{}
+		for k, v := range x {
+			oo[k], nn[k] = v, v
+		}
+		if sub, ok := x[a.Path[0]]; ok {
+			oo[a.Path[0]], nn[a.Path[0]] = applyAlias(sub, rest)
+		}
+		return oo, nn
+	case []interface{}:
+		oo, nn := append([]interface{}{}, x...), append([]interface{}{}, x...)
+		i := 0
+		fmt.Sscan(a.Path[0], &i)
+		if i >= 0 && i < len(x) {
+			oo[i], nn[i] = applyAlias(x[i], rest)
+		}
+		return oo, nn
+	}
+	return old, old
+}
+
+// listPaths returns the paths of all lists inside v.
+func listPaths(v interface{}, prefix []string, out *[][]string) {
+	switch x := v.(type) {
+	case map[string]interface{}:
+		for _, k := range sortedKeys(x) {
+			listPaths(x[k], append(append([]string{}, prefix...), k), out)
+		}
+	case []interface{}:
+		*out = append(*out, append([]string{}, prefix...))
+		for i, e := range x {
+			listPaths(e, append(append([]string{}, prefix...), fmt.Sprint(i)), out)
+		}
+	}
+}
+
+// genAlias picks a list of old and an aliasing view of it; ok=false if old holds no list.
+func genAlias(r *vh.Rng, old interface{}) (*Alias, bool) {
+	var paths [][]string
+	listPaths(old, nil, &paths)
+	if len(paths) == 0 {
+		return nil, false
+	}
+	a := &Alias{Path: paths[r.Intn(len(paths))], Extra: []interface{}{}}
+	var lst []interface{}
+	cur := old
+	for _, p := range a.Path {
+		switch x := cur.(type) {
+		case map[string]interface{}:
+			cur = x[p]
+		case []interface{}:
+			i := 0
+			fmt.Sscan(p, &i)
+			cur = x[i]
+		}
+	}
+	lst, _ = cur.([]interface{})
+	switch k := r.Intn(10); {
+	case k < 5 && len(lst) > 0:
+		a.Op, a.K = "prefix", r.Intn(len(lst))
+	case k < 9:
+		a.Op = "extend"
+		for n := 1 + r.Intn(2); n > 0; n-- {
+			if len(lst) > 0 && r.Chance(50) {
+				a.Extra = append(a.Extra, deepCopy(mutate(r, lst[r.Intn(len(lst))], 1)))
+			} else {
+				a.Extra = append(a.Extra, genValue(r, 1))
+			}
+		}
+	default:
+		a.Op = "same"
+	}
+	return a, true
 }
 
 var fieldNames = []string{"a", "b", "c", "d", "$", "0", "1", "id"}
